@@ -82,7 +82,8 @@ Print Assumptions C04_corrupted_body_rejected.
    faults: the second root comparison - which sits AFTER blocks.Add and HandleHeaders - never fails; the
    header is added and announced; the transactions to notify are `selected` (the already delivered ones as
    updates, the other relevant ones as new; the files play no part); what is delivered is, in block order,
-   a prefix of them - all of them when no output fetch fails - each of the right kind with that header,
+   a prefix of them - all of them when nothing cuts the second pass short (no output fetch fails, every
+   previously seen transaction has a stored state) - each of the right kind with that header,
    depth 0, its true index and a proof the client verifier accepts *)
 Theorem C04_processed_block :
   forall (s : nstate) (hid prev : Z) (hroot : mnode) (body : list (Z * bool)),
@@ -96,11 +97,11 @@ Theorem C04_processed_block :
       n_chain s' = (hid, hroot) :: n_chain s /\
       Forall2 (conf_ok hid hroot (map fst body)) (take (length evs) txs) evs /\
       (code = OK \/ code = ERR) /\
-      (no_fault (n_faults s) txs -> code = OK /\ length evs = length txs).
+      (no_abort (n_faults s) (n_states s) txs -> code = OK /\ length evs = length txs).
 Proof. exact processed_block. Qed.
 Print Assumptions C04_processed_block.
 
-(* the complete case on its own: no output fetch fails *)
+(* the complete case on its own: nothing cuts the second pass short *)
 Theorem C04_accepted_block :
   forall (s : nstate) (hid prev : Z) (hroot : mnode) (body : list (Z * bool)),
     NoDup (map fst body) -> zlen body < 2 ^ 63 ->
@@ -108,7 +109,7 @@ Theorem C04_accepted_block :
     prev = n_tip s ->
     is_merkle_root_valid hroot (map fst body) = true ->
     let txs := selected (n_insync s) (n_unconf s) (n_mempool s) body in
-    no_fault (n_faults s) txs ->
+    no_abort (n_faults s) (n_states s) txs ->
     exists s' evs,
       process_block s hid prev hroot body false = (s', OK, EHeaders (n_height s + 1) hid :: evs) /\
       n_chain s' = (hid, hroot) :: n_chain s /\
@@ -116,17 +117,38 @@ Theorem C04_accepted_block :
 Proof. exact accepted_block. Qed.
 Print Assumptions C04_accepted_block.
 
-(* alignment for reprocessed blocks: two node states that differ ONLY in what the per-height tx id files
-   already list give the same outcome class and exactly the same notifications for a block (any block, any
-   body) - proofs and transactions stay paired whatever an interrupted earlier processing recorded *)
+(* alignment for reprocessed / re-confirmed blocks: two node states that differ ONLY in what the per-height tx
+   id files already list and in which proofs the stored tx states carry (the same transactions have a state)
+   give the same outcome class and exactly the same notifications for a block (any block, any body): proofs
+   and transactions stay paired whatever an interrupted earlier processing recorded, and every confirmation
+   is rebuilt from the CURRENT block whatever stale proof (of a block reverted since) a state still holds *)
 Theorem C04_reprocessed_block_aligned :
-  forall (s : nstate) (hid prev : Z) (hroot : mnode) (body : list (Z * bool)) (files : list (Z * list Z)),
+  forall (s : nstate) (hid prev : Z) (hroot : mnode) (body : list (Z * bool)) (files : list (Z * list Z))
+         (states : list (Z * option cproof)),
+    (forall t, get_state t states = None <-> get_state t (n_states s) = None) ->
     let s2 := NS (n_chain s) (n_unconf s) (n_mempool s) (n_insync s) (n_saved_chain s) (n_saved_unconf s)
-                 files (n_faults s) in
+                 files (n_faults s) states in
     snd (fst (process_block s2 hid prev hroot body false)) = snd (fst (process_block s hid prev hroot body false)) /\
     snd (process_block s2 hid prev hroot body false) = snd (process_block s hid prev hroot body false).
 Proof. exact reprocessed_block_aligned. Qed.
 Print Assumptions C04_reprocessed_block_aligned.
+
+(* soundness over histories.  After ANY history - unconfirmed arrivals and re-announcements, blocks, competing
+   headers handled by the headers handler (reorgs), output-fetch faults, graceful restarts and hard crashes -
+   every notification produced by a block, delivered directly or behind a header announcement that reverts
+   part of the chain, with pairwise distinct txids, is the announcement of that header or a confirmation of
+   the right kind for one of the block's transactions, carrying that header, depth 0, the transaction's index
+   in THIS block and a proof the client verifier accepts against THIS header's root *)
+Theorem C04_history_sound :
+  forall (insync : bool) (ops : list op) (hid prev : Z) (committed : list Z) (body : list (Z * bool)),
+    NoDup (map fst body) -> zlen body < 2 ^ 63 ->
+    let s := state_after insync ops in
+    Forall (block_event_ok hid (committed_root committed) (map fst body))
+           (snd (step_ev s (OBlock hid prev committed body false))) /\
+    Forall (block_event_ok hid (committed_root committed) (map fst body))
+           (snd (step_ev s (OReorg hid prev committed body))).
+Proof. exact history_sound. Qed.
+Print Assumptions C04_history_sound.
 
 (* Non-vacuity (every example is a CLOSED computation: vm_compute on explicit small inputs only).
    A 7-transaction block (odd count at level 0) with 3 registered transactions - the first, a middle one
@@ -175,7 +197,7 @@ Example C04_example_ops : list op :=
    OBlock 2 1 [21; 22; 23] [(21, true); (23, false); (22, true)] false;       (* reordered: rejected *)
    OBlock 2 1 [21; 22; 23] [(21, true); (22, true); (23, false)] false].
 Example C04_example_run :
-  c04_valid C04_example_ops = true /\
+  c04_valid_tr C04_example_ops (run true C04_example_ops) = true /\
   c04_monitor C04_example_ops (run true C04_example_ops) = None /\
   map (fun o => firstn 4 o) (run true C04_example_ops)
     = [[0; 0; 0; 1]; [0; 0; 0; 0]; [0; 0; 0; 1]; [0; 1; 1; 4]; [1; 1; 1; 0]; [0; 2; 2; 3]].
@@ -192,10 +214,32 @@ Example C04_example_abort_ops : list op :=
    OBlock 1 0 [9] [(9, false)] false;
    OBlock 2 1 [2; 1; 4; 5; 3] [(2, false); (1, true); (4, false); (5, true); (3, true)] false].
 Example C04_example_abort :
-  c04_valid C04_example_abort_ops = true /\
+  c04_valid_tr C04_example_abort_ops (run false C04_example_abort_ops) = true /\
   c04_monitor C04_example_abort_ops (run false C04_example_abort_ops) = None /\
   map (fun o => firstn 4 o) (run false C04_example_abort_ops)
     = [[0; 0; 0; 1]; [0; 1; 1; 1]; [0; 1; 1; 0]; [1; 2; 2; 3]; [0; 2; 2; 0]; [0; 0; 0; 0]; [0; 1; 1; 1]; [0; 2; 2; 4]].
+Proof. vm_compute. repeat split; reflexivity. Qed.
+
+(* confirm -> revert -> re-announce -> confirm on the new branch: tx 7 is seen, confirmed in block 2 (index 2),
+   block 2 is reverted by the competing header 3, tx 7 is announced again - delivered with the STALE proof of
+   block 2 in its state (header not held: -5; recorded by c04_reannounce_monitor, code 431) - and confirmed in
+   block 4 at index 1: the update carries block 4's header, index 1 and a proof that verifies *)
+Example C04_example_reorg_ops : list op :=
+  [OSeen 7 true; OBlock 1 0 [1] [(1, false)] false;
+   OBlock 2 1 [2; 3; 7] [(2, false); (3, false); (7, true)] false;
+   OReorg 3 1 [4; 5] [(4, false); (5, false)];
+   OSeen 7 true;
+   OBlock 4 3 [6; 7; 8; 9] [(6, false); (7, true); (8, false); (9, false)] false].
+Example C04_example_reorg :
+  c04_valid_tr C04_example_reorg_ops (run true C04_example_reorg_ops) = true /\
+  c04_monitor C04_example_reorg_ops (run true C04_example_reorg_ops) = None /\
+  c04_reannounce_monitor C04_example_reorg_ops (run true C04_example_reorg_ops) = Some (4, [431]) /\
+  run true C04_example_reorg_ops
+    = [[0; 0; 0; 1; 1; 7; 0]; [0; 1; 1; 1; 3; 1; 1];
+       [0; 2; 2; 2; 3; 2; 2; 2; 7; 1; 2; 2; 0; 0; 1; -1; 2; 3; 1; 1];
+       [0; 2; 3; 1; 3; 2; 3];
+       [0; 2; 3; 1; 1; 7; 1; -5; 2; 0; 0; 1; -1; 2; 3; 1; 1];
+       [0; 3; 4; 2; 3; 3; 4; 2; 7; 1; 4; 1; 0; 0; 2; 6; -1; 8; 9; 0]].
 Proof. vm_compute. repeat split; reflexivity. Qed.
 
 (* Recorded note (not a violation of the statement): without the hypothesis "txids pairwise distinct" the
